@@ -168,6 +168,7 @@ type scenario struct {
 	psk     bool                         // resumption attempt: a first full handshake fills the session cache
 	exclude bool                         // one of the two classes C10_holds_if excludes (a finding)
 	must    bool                         // always part of the quick tier
+	creq    bool                         // the server sends a CertificateRequest (optional client authentication)
 	pin     uint16                       // non-zero: pin the server to one version (MinVersion = MaxVersion; this value when the scenario sets none)
 }
 
@@ -313,7 +314,7 @@ func scenarios(p *hs.PKI, cl class, w *hs.WireHello, specmin uint16, rot int, pr
 	adv := advertised(w, specmin)
 	for _, v := range adv {
 		v := v
-		sc = append(sc, scenario{kind: "version" + versName[v], detail: "max" + versName[v], alpn: both, must: true, cfg: func(c *tls.Config) { c.MaxVersion = v }})
+		sc = append(sc, scenario{kind: "version" + versName[v], detail: "max" + versName[v], alpn: both, must: rich || v >= tls.VersionTLS12, cfg: func(c *tls.Config) { c.MaxVersion = v }})
 	}
 	// supported_versions in wire order, GREASE dropped: descending?
 	var pin uint16
@@ -389,10 +390,45 @@ func scenarios(p *hs.PKI, cl class, w *hs.WireHello, specmin uint16, rot int, pr
 			s := s
 			sc = append(sc, scenario{kind: "suite13", detail: fmt.Sprintf("0x%04x", s), alpn: both, script: func(sc *tls.VerifServerScript) { sc.Suite = s }})
 		}
+		// certificate compression with each advertised algorithm; a server that asks for a client certificate (optional
+		// client authentication: this client has none and answers with an empty Certificate); and both together
+		var ccAlgs []uint16
 		for _, a := range w.CertCompressionAlgs {
-			a := a
 			if a >= 1 && a <= 3 {
-				sc = append(sc, scenario{kind: "certcomp", detail: fmt.Sprint(a), alpn: both, script: func(sc *tls.VerifServerScript) { sc.CertCompression = a }})
+				ccAlgs = append(ccAlgs, a)
+			}
+		}
+		for i, a := range ccAlgs {
+			a := a
+			sel := i == rot%len(ccAlgs)
+			sc = append(sc, scenario{kind: "certcomp", detail: fmt.Sprint(a), alpn: both, must: sel, script: func(sc *tls.VerifServerScript) { sc.CertCompression = a }})
+			sc = append(sc, scenario{kind: "clientauth-certcomp", detail: fmt.Sprint(a), alpn: both, must: sel, creq: true,
+				script: func(sc *tls.VerifServerScript) { sc.CertCompression = a },
+				cfg:    func(c *tls.Config) { c.ClientAuth = tls.RequestClientCert }})
+		}
+	}
+	for _, v := range adv {
+		v := v
+		if v < tls.VersionTLS12 && !rich {
+			continue
+		}
+		sc = append(sc, scenario{kind: "clientauth", detail: "max" + versName[v], alpn: both, must: v == tls.VersionTLS13 || (!v13 && v == tls.VersionTLS12), creq: true,
+			cfg: func(c *tls.Config) {
+				c.MaxVersion = v
+				c.ClientAuth = tls.RequestClientCert
+			}})
+	}
+	if v13 {
+		// a HelloRetryRequest and a CertificateRequest in one handshake
+		for _, g := range serverGroups {
+			g := g
+			if g != 4588 && hs.ContainsU16(w.SupportedGroups, g) && !hs.ContainsU16(w.KeyShareGroups, g) {
+				sc = append(sc, scenario{kind: "clientauth-hrr", detail: fmt.Sprint(g), alpn: both, creq: true,
+					script: func(s *tls.VerifServerScript) { s.HRRGroup = tls.CurveID(g) },
+					cfg: func(c *tls.Config) {
+						c.CurvePreferences = []tls.CurveID{tls.CurveID(g)}
+						c.ClientAuth = tls.RequestClientCert
+					}})
 			}
 		}
 	}
@@ -627,7 +663,7 @@ func flightTerm(o *outcome) (term string, answered bool, hrrGroup uint16) {
 		}
 		sh := fmt.Sprintf("(mkHello 771 772 %d %s %d 0 %d 0 false None [])", tailOf(tr.ServerRandom), vh.Bytes(w.SessionID), suite, group)
 		cc := "None"
-		if o.sc.kind == "certcomp" {
+		if o.sc.kind == "certcomp" || o.sc.kind == "clientauth-certcomp" {
 			cc = "(Some " + o.sc.detail + ")"
 		}
 		return fmt.Sprintf("(mkFlight %s %s %s %s None true)", hrr, sh, vh.Str(alpn), cc), true, hrrGroup
@@ -787,9 +823,9 @@ func run(c *vh.Ctx) {
 		rich := cl.kind == "parrot" || cl.kind == "custom"
 		for si, sc := range scs {
 			if quick && !sc.must {
-				k := 6
+				k := 9
 				if !rich {
-					k = 14
+					k = 24
 				}
 				if (ci*7+si+int(c.Seed))%k != 0 {
 					continue
@@ -896,6 +932,10 @@ func run(c *vh.Ctx) {
 		ctor := "CRun"
 		if o.sc.exclude {
 			ctor = "CRunX"
+		}
+		if o.sc.creq {
+			// the flight also carries a CertificateRequest; observed: the server saw no client certificate
+			ctor = fmt.Sprintf("CRunQ %s", vh.Bool(completed && len(r.ServerState.PeerCertificates) == 0))
 		}
 		c.Case(o.sc.kind+"-"+o.cl.kind, fmt.Sprintf("(%s %s %s %s %d %s %s %s)", ctor, vh.Bool(fixed), hs.ViewTerm(r.Result), shapeTerm(r.KeyShareKeys), specMin(o.cl),
 			hs.WireTerm(r.Wire), fl, hs.ObsTerm(r.Result)), fmt.Sprintf("%s/%s/%s", o.sc.kind, o.cl.name, o.sc.detail),
